@@ -140,6 +140,10 @@ type c15Case struct {
 	Hex  string `json:"hex"`
 	Orig string `json:"orig,omitempty"` // string cases: the unaltered string this one was derived from
 	Note string `json:"note,omitempty"`
+	// kind "conc": a concurrent scenario (run in a child process)
+	Input *c15ConcInput `json:"input,omitempty"`
+	// kind "store": a history of the ticket store
+	Steps []c15StoreStep `json:"steps,omitempty"`
 }
 
 func runC15(r *Run) {
@@ -293,6 +297,12 @@ func runC15(r *Run) {
 			if o.Class == "ok" {
 				runTicket(o.Ticket, true, true)
 			}
+		case "conc":
+			if c.Input != nil {
+				c15RunConc(r, *c.Input, "fixed")
+			}
+		case "store":
+			c15StoreExec(r, c.Steps)
 		case "bytes":
 			b := decUnhex(c.Hex)
 			r.Emit("C15 de "+decHex(b), decDeserialize(b).String())
@@ -321,5 +331,19 @@ func runC15(r *Run) {
 			mode = 1
 		}
 		runTicket(t, wf, full)
+	}
+
+	// update histories in the real ticket store
+	for g := 0; g < r.N/8 && len(r.Violations) < 20 && !decStalled(); g++ {
+		c15StoreExec(r, c15StoreGen(r))
+	}
+
+	// concurrent encode / decode (child process), after the sequential cases
+	nConc := 1
+	if r.Tier == "thorough" {
+		nConc = 3
+	}
+	for k := 0; k < nConc && len(r.Violations) < 20; k++ {
+		c15RunConc(r, c15GenConc(r), "generated")
 	}
 }
